@@ -4272,7 +4272,12 @@ impl QueryRouter {
                 NullsOrder::First => Ordering::Greater,
                 NullsOrder::Last => Ordering::Less,
             },
-            (Some(va), Some(vb)) => self.compare_values(va, vb).unwrap_or(Ordering::Equal),
+            // NaN compares with nothing; treating it as equal to every number would make this
+            // no total order (std's sort may then panic): it sorts after all numbers instead
+            (Some(va), Some(vb)) => self.compare_values(va, vb).unwrap_or_else(|| {
+                let is_nan = |v: &Value| matches!(v, Value::Float(f) if f.is_nan());
+                is_nan(va).cmp(&is_nan(vb))
+            }),
         }
     }
 
